@@ -791,6 +791,24 @@ def b_invert_naive(g, W, sz):
         shape=(n, n), kinds=("invertible",), width=(n + 63) // 64)
 
 
+@op("trtri_upper_russian", "C05", ["A"])
+def b_trtri_upper_russian(g, W, sz):
+    """the Four-Russians base of the triangular inversion with an EXPLICIT table parameter (public entry point): k in
+    0..16; 4k index bits per step, so k >= 9 uses more than 32 bits of the table words; n >= 8k so that the main loop
+    runs more than once"""
+    k = g.rng.choice([0, 1, 2, 3, 4, 5, 6, 7, 8, 9, 10, 11, 12, 13, 14, 15, 16])
+    n = g.rng.choice([g.rng.randint(1, 40), 63, 64, 65, 100, 128, 129, g.rng.randint(8 * max(k, 1), 8 * max(k, 1) + 70)])
+    garbage = g.rng.random() < 0.5
+    ra = g.unit_tri_rows(n, True, garbage=garbage)
+    w = W("A")
+    if w is not None:
+        w = dict(w)
+        w["wo"] = (w["wo"] // 2 * 2) if "wo" in w else g.rng.choice([0, 2])     # odd word offsets: recorded finding F9
+    la, da = g.operand("A", n, n, ra, w)
+    return _finish(la + ["call trtri_upper_russian A %d" % k], da), dict(shape=(n, n), kinds=("tri+garbage" if garbage else "tri",), k=k,
+                                                                         width=(n + 63) // 64)
+
+
 @op("trtri_upper", "C05", ["A"])
 def b_trtri_upper(g, W, sz):
     n = _tri_dim(g, sz)
